@@ -230,7 +230,11 @@ func genBrd(r *Rand, tier string, emit func(string)) {
 		}
 	}
 	// the repository's own test vectors, if present
-	if files, err := filepath.Glob("/repo/testdata/*"); err == nil {
+	repoRoot := os.Getenv("VERIF_REPO")
+	if repoRoot == "" {
+		repoRoot = "/repo"
+	}
+	if files, err := filepath.Glob(repoRoot + "/testdata/*"); err == nil {
 		for _, f := range files {
 			if st, err := os.Stat(f); err != nil || st.IsDir() || st.Size() > 1<<20 || strings.HasSuffix(f, ".go") {
 				continue
